@@ -13,11 +13,13 @@ def costs_of(res):
     return None if "exc" in res else res["ranking"]
 
 
-def meta_violation(ctx, what, db, variants, results):
+def meta_violation(ctx, what, db, variants, results, split=None):
     ctx.violations.append({
         "what": what,
         "replay": {"kind": "metamorphic", "db": db, "pipelines": variants, "impl_results": results,
-                   "how": "Recommendations(db).run_pipeline(pipeline) for each pipeline: results must be equal"},
+                   "one_call_per_command": split or [False] * len(variants),
+                   "how": "Recommendations(db).run_pipeline(pipeline) for each pipeline (one call per command on the same "
+                          "recommender where one_call_per_command says so): results must be equal"},
     })
 
 
@@ -31,7 +33,7 @@ def run(ctx):
         n = 350 if ctx.tier == "quick" else 30000
         for i in range(n):
             db = filt.gen_db(rng)
-            cmds = [filt.gen_command(rng, db, odd=False) for _ in range(rng.randint(2, 5))]
+            cmds = filt.gen_pipeline(rng, db, rng.randint(2, 5), odd=False)
             base = filt.run_real(db, cmds, steps=True)
             eq, impl, model = filt.compare(db, cmds, drv, steps=True)
             ctx.count("permutations+monotone", repr((sorted(db["programs"]), cmds)), nontrivial=filt.nontrivial(base, db))
@@ -51,6 +53,15 @@ def run(ctx):
                         meta_violation(ctx, "not monotone", db, [cmds], [base["steps"]])
                         break
                     prev = st
+            # the same commands handed over one run_pipeline call at a time, on one recommender
+            one_by_one = filt.run_real(db, cmds, split=True)
+            ctx.count("permutations+monotone", repr((sorted(db["programs"]), "split", cmds)), nontrivial=filt.nontrivial(base, db))
+            if not ((("exc" in base) == ("exc" in one_by_one)) and sets_of(base) == sets_of(one_by_one) and costs_of(base) == costs_of(one_by_one)):
+                meta_violation(ctx, "result differs when the commands are given one run_pipeline call at a time to the same recommender",
+                               db, [cmds, cmds],
+                               [base if "exc" in base else {"final": base["final"], "ranking": base["ranking"]},
+                                one_by_one if "exc" in one_by_one else {"final": one_by_one["final"], "ranking": one_by_one["ranking"]}],
+                               split=[False, True])
             # order independence: permutations give the same sets and the same costs
             for _ in range(3):
                 perm = list(cmds)
@@ -63,6 +74,82 @@ def run(ctx):
                                    [base if "exc" in base else {"final": base["final"], "ranking": base["ranking"]},
                                     other if "exc" in other else {"final": other["final"], "ranking": other["ranking"]}])
                     break
+        # commands sharing a pattern that matches several taxa: every order of the commands, exhaustively (a pattern resolved
+        # once must not be served from a memo that an earlier command altered — seeded change C06-d)
+        import itertools
+        import regex
+
+        q = 120 if ctx.tier == "quick" else 8000
+        for i in range(q):
+            db = filt.gen_db(rng, min_programs=3)
+            wide = [pat for pat in filt.TAXON_PATTERNS + [t[:rng.randint(1, len(t))] for t in db["taxa"]]
+                    if sum(1 for t in db["taxa"] if regex.compile(f"{pat}\\b").match(t)) >= 2]
+            if not wide:
+                continue
+            p1 = rng.choice(wide)
+            p2 = rng.choice(wide) if rng.random() < 0.5 else filt.gen_taxon_pattern(rng, db)
+            first = {"operation": rng.choice(["exclude", "include", "exclude all"]),
+                     "data": [[p1, filt.gen_predicate(rng, rng.random() < 0.8, False), p2]]}
+            second = {"operation": rng.choice(["include", "exclude", "impart", "include all"]),
+                      "data": [rng.choice([p1, p1, [p1, filt.gen_predicate(rng, None, False), p2]])]}
+            if second["operation"] == "impart" and not isinstance(second["data"][0], str):
+                second["data"] = [p1]
+            cmds = [first, second] + [filt.gen_command(rng, db, odd=False, bad_ok=False) for _ in range(rng.randint(0, 1))]
+            results = []
+            for perm in itertools.permutations(cmds):
+                res = filt.run_real(db, list(perm))
+                results.append((list(perm), res))
+                ctx.count("shared wide pattern, all orders", repr((sorted(db["programs"]), perm)), nontrivial=filt.nontrivial(res, db))
+            base_cmds, base = results[0]
+            for perm, other in results[1:]:
+                same = (("exc" in base) == ("exc" in other)) and sets_of(base) == sets_of(other) and costs_of(base) == costs_of(other)
+                if not same:
+                    meta_violation(ctx, "result depends on the order of the commands", db, [base_cmds, perm],
+                                   [base if "exc" in base else {"final": base["final"], "ranking": base["ranking"]},
+                                    other if "exc" in other else {"final": other["final"], "ranking": other["ranking"]}])
+                    break
+            eq, impl, model = filt.compare(db, cmds, drv)
+            if not eq:
+                n_dis += 1
+                if n_dis <= 3:
+                    filt.report_disagreement(ctx, "pipeline differs from the model", db, cmds, drv)
+        # commands run_pipeline documents as IGNORED (not a dict, no operation, unknown operation, no data, data that is
+        # neither a list nor a shell command) change nothing; `data` given as a shell command printing the patterns is the
+        # list of those patterns; a criterion that is neither a string nor a triple is skipped under `any`
+        g = 120 if ctx.tier == "quick" else 6000
+        ignored_pool = [{"raw": {}}, {"raw": "include"}, {"raw": None}, {"raw": 42}, {"raw": {"operation": "sort", "data": ["a"]}},
+                        {"raw": {"operation": "include"}}, {"raw": {"operation": "exclude", "data": []}},
+                        {"raw": {"operation": "include", "data": 42}}, {"raw": {"operation": "hide", "data": None}},
+                        {"raw": {"data": ["a"]}}, {"raw": ["include", "a"]}]
+        safe = regex.compile(r"[\w/.]+$").match
+        for i in range(g):
+            db = filt.gen_db(rng)
+            cmds = filt.gen_pipeline(rng, db, rng.randint(1, 4), odd=False, bad_ok=False)
+            variant = []
+            for c in cmds:
+                if rng.random() < 0.5:
+                    variant.append(rng.choice(ignored_pool))
+                pats = [x for x in c["data"] if isinstance(x, str)]
+                if pats and len(pats) == len(c["data"]) and all(safe(x) for x in pats) and rng.random() < 0.4:
+                    variant.append({"raw": {"operation": c["operation"], "data": "printf '%s\\n' " + " ".join(pats)}})
+                elif c["data"] and c["operation"].split()[0] in ("include", "exclude") and not c["operation"].endswith("all") and rng.random() < 0.3:
+                    odd = rng.choice([42, None, ["a", "is"], ("a", "is", "b", "c"), 3.5])
+                    variant.append({"raw": {"operation": c["operation"],
+                                            "data": [x if isinstance(x, str) else tuple(x) for x in c["data"]] + [odd]}})
+                else:
+                    variant.append(c)
+            if rng.random() < 0.5:
+                variant.append(rng.choice(ignored_pool))
+            ra, rb = filt.run_real(db, cmds), filt.run_real(db, variant)
+            ctx.count("ignored / equivalent command forms", repr((sorted(db["programs"]), repr(variant))), nontrivial=filt.nontrivial(ra, db))
+            same = (("exc" in ra) == ("exc" in rb)) and sets_of(ra) == sets_of(rb) and costs_of(ra) == costs_of(rb)
+            # NOT a clause of C06 (the property says nothing of malformed commands): a difference is recorded as a lead in
+            # the evidence, never as a violation — the stream is there so that these branches of run_pipeline are executed
+            # under the monotonicity / order observations above and so that a change there is visible in the evidence
+            ctx.dist("ignored/equivalent command forms: " + ("same result" if same else "DIFFERENT result (lead, see notes)"))
+            if not same and len(ctx.notes) < 3:
+                ctx.notes.append({"lead": "a command documented as ignored (or an equivalent form of a command) changed the result",
+                                  "pipelines": [cmds, [c.get("raw", c) if isinstance(c, dict) else c for c in variant]]})
         # split / merge equivalences and hide neutrality
         m = 350 if ctx.tier == "quick" else 30000
         for i in range(m):
@@ -130,7 +217,8 @@ def run(ctx):
         drv.close()
     ctx.cov["rule"] = (
         "random well-formed databases × pipelines of 2-5 commands: the implementation is run on the list (state after each command "
-        "observed: monotonicity), on 3 random permutations (same sets and same ranking/costs), and compared with the model; split/merged "
+        "observed: monotonicity), on 3 random permutations (same sets and same ranking/costs), and compared with the model; pipelines whose "
+        "commands share a pattern matching several taxa (a negated or positive triple, then the pattern alone or in another triple), run in EVERY order; split/merged "
         "variants of `include all` / `exclude`, `hide` insertions, and the two meta/program equivalences on import-free databases where "
         "every program has exactly one meta/program spanning it. Non-trivial as in C04; distinct = distinct (programs, pipeline[s])."
     )
@@ -148,7 +236,9 @@ def replay(ctx, path):
     obj = json.load(open(path, encoding="utf-8"))
     if obj.get("kind") == "metamorphic":
         core.import_repo()
-        for p in obj["pipelines"]:
-            print(json.dumps(p, ensure_ascii=False), "->", json.dumps(filt.run_real(obj["db"], p), ensure_ascii=False)[:600])
+        splits = obj.get("one_call_per_command") or [False] * len(obj["pipelines"])
+        for p, sp in zip(obj["pipelines"], splits):
+            print(json.dumps(p, ensure_ascii=False), "(one call per command)" if sp else "", "->",
+                  json.dumps(filt.run_real(obj["db"], p, split=sp), ensure_ascii=False)[:600])
         return 0
     return filt.replay(ctx, path)
